@@ -40,7 +40,7 @@ TYield(e) ==
 
 TDone == PDone
 
-TInitOK == HdrOK \/ Assert(FALSE, <<"trace header inconsistent with the model stream", tid>>)
+TInitOK == IF HdrOK THEN TRUE ELSE Assert(FALSE, <<"trace header inconsistent with the model stream", tid>>)
 
 TNext == /\ l <= Len(Ev)
          /\ LET e == Ev[l] IN
@@ -48,7 +48,7 @@ TNext == /\ l <= Len(Ev)
               \/ e.e = "yield" /\ TYield(e)
               \/ e.e = "done" /\ TDone
          /\ l' = l + 1 /\ UNCHANGED <<tid, kb, kpos>> /\ Mark(tid, l + 1)
-         /\ (l > 1 \/ TInitOK)
+         /\ (IF l > 1 THEN TRUE ELSE TInitOK)
 TSpec == TInit /\ [][TNext]_tvars
 
 (* every invariant of the module is also evaluated on every state of every recorded execution *)
